@@ -52,7 +52,7 @@ struct lin
                     complaint() = "point " + vf::dec(p.point()[k]) + " outside its bin [" + vf::dec(lo) + "," + vf::dec(hi) + "]";
                 w *= pdf->bins() * (hi - lo);
             }
-            if (std::fabs(L(p.weight()) - w) > 8 * std::numeric_limits<T>::epsilon() * w && complaint().empty())
+            if (!(std::fabs(L(p.weight()) - w) <= 8 * std::numeric_limits<T>::epsilon() * w) && complaint().empty())
                 complaint() = "weight " + vf::dec(p.weight()) + " but bins x width = " + vf::dec(w);
         }
         return f(p.point());
@@ -119,7 +119,7 @@ static void plain_cases(report& r)
         auto const res = hep::plain_iteration(hep::make_integrand<T>(lin<T>{cs}, d), n, gen);
         L const want = exact_integral<T>(cs);
         L const tol = 64 * (d + 1) * std::numeric_limits<T>::epsilon() * magnitude<T>(cs);
-        if (std::fabs(L(res.value()) - want) > tol)
+        if (!(std::fabs(L(res.value()) - want) <= tol))
             r.violate("biased/plain", id, id + ": lattice estimate " + vf::dec(L(res.value())) + ", integral " + vf::dec(want));
         if (!lin<T>::complaint().empty()) r.violate("weight-seen-by-integrand", id, id + ": " + lin<T>::complaint());
         r.distinct(vf::hash_str(id));
@@ -156,7 +156,7 @@ static void vegas_one(report& r, std::string const& id, std::vector<std::vector<
     }
     L const want = exact_integral<T>(cs);
     L const tol = 64 * (d + b) * std::numeric_limits<T>::epsilon() * magnitude<T>(cs);
-    if (std::fabs(got - want) > tol)
+    if (!(std::fabs(got - want) <= tol))
     {
         std::string g;
         for (auto const& x : grids) g += "[" + grid_str(x) + "]";
@@ -348,7 +348,7 @@ static void mc_one(report& r, std::string const& id, std::vector<T> const& split
     }
     L const want = mc_expected<T>(cs, jac);
     L const tol = 64 * (d + c + 2) * std::numeric_limits<T>::epsilon() * magnitude<T>(cs) * 4;
-    if (std::fabs(got - want) > tol)
+    if (!(std::fabs(got - want) <= tol))
         r.violate("biased/multi_channel", id, id + ": lattice estimate " + vf::dec(got) + ", integral of f x jacobian " + vf::dec(want) + " (tolerance " + vf::dec(tol) + ")");
 }
 
@@ -427,6 +427,13 @@ static void mc_adapted(report& r, bool thorough)
         std::deque<std::pair<std::vector<T>, int>> frontier;
         frontier.push_back({std::vector<T>(3, T(1) / T(3)), 0});
         frontier.push_back({hep::multi_channel_refine_weights(std::vector<T>{T(1), T(0), T(2)}, std::vector<T>(3, T(1)), minw, beta), 0});
+        // user weights of which some lie below the minimum weight (the constructor raises them)
+        for (auto const& u : {std::vector<T>{T(1), T(1), T(30)}, std::vector<T>{T(1), T(5), T(10)}, std::vector<T>{T(40), T(0), T(1)}})
+        {
+            auto const w0 = hep::multi_channel_refine_weights(u, std::vector<T>(3, T(1)), minw, beta);
+            if (seen.insert(w0).second) { states.push_back(w0); r.state(); }
+            frontier.push_back({w0, 0});
+        }
         while (!frontier.empty())
         {
             auto cur = frontier.front(); frontier.pop_front();
@@ -474,11 +481,12 @@ static void mc_adapted(report& r, bool thorough)
             t = tt;
             vf::script_engine gen;
             auto const res = hep::multi_channel_iteration(hep::make_multi_channel_integrand<T>(lin<T>{cs}, 1, map, 1, 3), m, w, gen);
-            total += L(w[i]) * L(res.value());
+            // channel i is selected with probability alpha_i / sum(alpha) (the selector normalises its copy of the weights)
+            total += L(w[i]) / wsum * L(res.value());
         }
         L const want = mc_expected<T>(cs, jac);
         L const tol = 64 * 8 * std::numeric_limits<T>::epsilon() * magnitude<T>(cs) * 4;
-        if (std::fabs(total - want) > tol)
+        if (!(std::fabs(total - want) <= tol))
             r.violate("biased/multi_channel-adapted-weights", id, id + ": weights " + vf::join_dec(w) + ": sum_i alpha_i x (lattice mean in channel i) = " + vf::dec(total) + ", integral " + vf::dec(want));
         r.distinct(vf::hash_str(id));
         if (r.wants_sample() && si == 5) r.sample(id + " weights " + vf::join_dec(w));
